@@ -63,6 +63,11 @@ def path_values(fn_node, target_stmt, expr, limit=400):
         v = subst(a.value, env)
         for t in a.targets:
           env[t.id] = copy.deepcopy(v)
+      elif k == 'stmt' and isinstance(a, ast.AugAssign) and isinstance(
+          a.target, ast.Name) and a.target.id in env:
+        # x += e  with a known x:  x = x + e
+        env[a.target.id] = ast.BinOp(left=env[a.target.id], op=a.op,
+                                     right=subst(a.value, env))
       elif k == 'stmt' and isinstance(a, (ast.Assign, ast.AugAssign, ast.For)):
         for t in ast.walk(a):
           if isinstance(t, ast.Name) and isinstance(t.ctx, ast.Store):
